@@ -322,7 +322,7 @@ fn nuts_case(rep: &mut Report, case: u64, g: &mut Sm64) {
 }
 
 pub fn run(ctx: &Ctx, rep: &mut Report) {
-    for c in ctx.case_ids("streams", 400, 24_000) {
+    for c in ctx.case_ids("streams", 400, 1_000_000) {
         let mut g = ctx.rng("streams", c);
         match c % 8 {
             0..=4 => mh_case(rep, c, &mut g),
